@@ -742,6 +742,47 @@ func (b *bucketModel) allow(now time.Duration) bool {
 func c14RateScenarios() []rateScenario {
 	var out []rateScenario
 	gaps := []int{0, 400, 1000}
+	// session lifetime against the phase of the wall clock: the virtual clock starts on a whole
+	// second, so lifetimes are also measured from instants inside a second, and probed at once,
+	// shortly before and shortly after the end of the lifetime
+	for _, ttl := range []int{400, 900, 1500, 2000, 60000} {
+		for _, phase := range []int{0, 150, 650, 990} {
+			for _, probe := range []string{"at-once", "before-end", "after-end"} {
+				ttl, phase, probe := ttl, phase, probe
+				out = append(out, rateScenario{name: fmt.Sprintf("lifetime(ttl=%dms,phase=%dms,%s)", ttl, phase, probe), kind: "session-lifetime", params: []int{ttl, phase}, run: func() (viol [][2]string) {
+					args := allOff().args()
+					for i := 0; i < len(args); i += 2 {
+						if args[i] == "--session-timeout" {
+							args[i+1] = fmt.Sprintf("%dms", ttl)
+						}
+					}
+					startServer(args)
+					vrt.Sleep(time.Duration(phase) * time.Millisecond)
+					s := createSession("")
+					if s.Status != 201 {
+						return [][2]string{{"status-differs", fmt.Sprintf("POST /session answered %d", s.Status)}}
+					}
+					switch probe {
+					case "before-end":
+						vrt.Sleep(time.Duration(ttl-50) * time.Millisecond)
+					case "after-end":
+						vrt.Sleep(time.Duration(ttl+50) * time.Millisecond)
+					}
+					h := connect("h", s.Code, "h", "sender")
+					if probe == "after-end" {
+						if h.conn != nil || h.Status != 404 {
+							viol = append(viol, [2]string{"join-code-admits-after-session-ended", fmt.Sprintf("a join %d ms after the end of a %d ms lifetime was answered %d", 50, ttl, h.Status)})
+						}
+						return
+					}
+					if h.conn == nil {
+						viol = append(viol, [2]string{"join-code-refused-while-alive", fmt.Sprintf("a join inside the %d ms lifetime (session created %d ms into a second, probe %s) was answered %d", ttl, phase, probe, h.Status)})
+					}
+					return
+				}})
+			}
+		}
+	}
 	// message rate per connection
 	for _, rate := range []int{0, 1, 2} {
 		for _, bst := range []int{1, 2, 3} {
